@@ -42,7 +42,7 @@ let observe c (routes : (n list * n list list * n list * int * action) list) =
 
 let model cs =
   let c = parse_case cs in
-  match resource_guard (c.kind <> "val") (c.kind <> "ptrint") with
+  match resource_guard (c.kind <> "val") (c.kind <> "ptrint" && c.kind <> "ptrptr") with
   | Panic -> L [A "regpanic"]
   | Ok _ ->
     let acts = acts_of c.mask in
